@@ -17,13 +17,16 @@ RULE = ('ALL sequences of recipe API calls up to length 4 (quick) / 5 (thorough)
         'containers, one plate and one never-declared container (uses new/duplicate, uses with a list / tuple argument incl. two same-named objects in one list, create_container new/duplicate, '
         'create_solution with pure/declared/undeclared solvent, create_solution_from declared/undeclared, transfer legal / '
         'undeclared source / undeclared destination, remove / dilute / fill_to declared/undeclared, start_stage '
-        'new/duplicate/"all", end_stage right/wrong, bake), plus random sequences of length 6-14; a sequence stops at the '
+        'new/duplicate/"all", end_stage right/wrong/"all", a renaming dilute onto the name of B, a Container under the name of the '
+        'plate, a transfer that can never be carried out, bake), plus random sequences of length 6-14; a sequence stops at the '
         'first deviation; evaluations = API calls compared with the automaton; non-trivial = a sequence reaching a '
         'successful bake or a refusal; distinct by sequence')
 ASSUMPTIONS = BASE_ASSUMPTIONS + [
     'bake is three-valued in the automaton once a step may be physically infeasible (after create_container/create_solution '
     'under the name A or remove on A); otherwise the alphabet is feasible in every reachable order (100 mL stock, <= 1 mL amounts)',
-    'after a successful bake: declaring and step-adding calls must raise RuntimeError; start_stage / end_stage / bake must raise']
+    'after a successful bake: declaring and step-adding calls must raise RuntimeError; start_stage / end_stage / bake must raise',
+    'a bake refused because a step is infeasible leaves the recipe as it was (not locked, an open stage still open, nothing declared or '
+    'undeclared): the automaton simply goes on; a refused uses() declares nothing']
 SYMS = ['usesA', 'usesB', 'usesP', 'usesA2', 'usesL_BP', 'usesL_dup', 'usesT_A', 'ccN', 'ccA', 'csM', 'csA', 'csSolvA', 'csSolvX', 'csfA', 'csfX', 'tAB', 'tAP', 'tXA',
         'tAX', 'rmA', 'rmX', 'dilA', 'dilX', 'fillB', 'fillX', 'st1', 'st2', 'stall', 'en1', 'en2', 'bake',
         'enAll', 'dilA_B', 'tKindP', 'tBig']
